@@ -231,6 +231,22 @@ def check(ck):
     ck.require(okk, "C18.4", "%s: fallback test uses the lower-case literal" % q.fn(fsend), "'user-agent' in <emitted>",
                "the User-Agent fallback compares a non-normalised literal with the lower-cased header names", q.loc(fsend, fsend.node))
 
+    # the configured User-Agent is the one the transport falls back on
+    fti = prog.func("jsonrpc", "TransportMixIn.__init__")
+    gti = cfg_of(fti)
+    uas = [n for n in gti.live_nodes() if n.kind == "stmt" and isinstance(n.ast, ast.Assign) and any(dump(t_) == "self.user_agent" for t_ in n.ast.targets)]
+    okk = len(uas) == 1 and prov.origin(gti, uas[0], uas[0].ast.value) == ("attr", ("param", "config"), "user_agent")
+    ck.require(okk, "C18.4", "%s: self.user_agent = config.user_agent" % q.fn(fti), "the configured User-Agent",
+               "the transport does not take its User-Agent from the configuration (%s): requests without a pushed User-Agent carry the "
+               "xmlrpc.client default instead of the configured one" % ("no store" if not uas else prov.show(prov.origin(gti, uas[0], uas[0].ast.value))),
+               q.loc(fti, fti.node))
+    fsc = prog.func("jsonrpc", "TransportMixIn.send_content")
+    gsc = cfg_of(fsc)
+    uap = [(n, c) for n in gsc.live_nodes() for c in node_calls(n) if call_name(c) == "putheader" and c.args and isinstance(c.args[0], ast.Constant)
+           and str(c.args[0].value).lower() == "user-agent"]
+    okk = len(uap) == 1 and len(uap[0][1].args) == 2 and prov.origin(gsc, uap[0][0], uap[0][1].args[1]) == ("attr", ("param", "self"), "user_agent")
+    ck.require(okk, "C18.4", "%s: fallback header value" % q.fn(fsc), "putheader('User-Agent', self.user_agent)",
+               "the fallback User-Agent header does not carry self.user_agent", q.loc(fsc, fsc.node))
     # ---- C18.5 stack discipline ------------------------------------------------------------------------------
     fpush = prog.func("jsonrpc", "TransportMixIn.push_headers")
     fpop = prog.func("jsonrpc", "TransportMixIn.pop_headers")
